@@ -873,7 +873,12 @@ func (fc *fnCtx) callWrites(c *ssa.CallCommon, names map[string]bool) (all bool)
 	}
 	for _, a := range con.Assigns {
 		tg := fc.assignTarget(env, a)
-		if tg.kind == "everything" || tg.kind == "except" {
+		if tg.kind == "except" {
+			// everything but the listed heaps: remembered so that a loop around the call keeps them
+			fc.exceptKeeps = append(fc.exceptKeeps, tg.heaps)
+			continue
+		}
+		if tg.kind == "everything" {
 			return true
 		}
 		for _, h := range tg.heaps {
